@@ -238,13 +238,150 @@ theorem tetAddHalfedge_spec {k : Kernel} (hi : GInv k) (hb : k.vBU = true) {a b 
         exact congrArg Prod.fst this
       rw [e] at this; exact this
     refine ⟨hg, ext_addEdgeCore k a b, by simp, ⟨?_, ?_⟩, ?_, ?_⟩
-    · unfold nHE heOf; simp
+    · unfold nHE heOf nE; simp
     · have h1 : eOf (heOf k.nE 0) = k.nE := by unfold eOf heOf; omega
       rw [h1]; unfold eDeleted; rw [addEdgeCore_eDel]
       rw [List.getD_eq_getElem?_getD, List.getElem?_append_right (by rw [hi.wf.len.eDel]; exact Nat.le_refl _)]
       simp [hi.wf.len.eDel]
     · unfold fromV; rw [halfedge_new]
     · unfold toV; rw [halfedge_new]
+
+/-! ### `add_halfface` -/
+
+theorem faceLoops_addFaceCore {k : Kernel} (hr : RangeInv k) (hl : FaceLoops k) {hes : List Nat}
+    (hh : ∀ h ∈ hes, h < k.nHE) (hloop : Loop3 k hes) : FaceLoops (k.addFaceCore hes) := by
+  intro f hf
+  rw [addFaceCore_faces] at hf
+  rcases List.mem_append.mp hf with h | h
+  · exact (ext_addFaceCore k hes).faceLoops_old hr hl f h
+  · simp only [List.mem_singleton] at h; subst h
+    exact (ext_addFaceCore k f).loop3 hh hloop
+
+theorem hfHes_new (k : Kernel) (hes : List Nat) : (k.addFaceCore hes).hfHes (heOf k.nF 0) = hes := by
+  unfold hfHes faceAt
+  have h1 : eOf (heOf k.nF 0) = k.nF := by unfold eOf heOf; omega
+  have h2 : side (heOf k.nF 0) = 0 := by unfold side heOf; omega
+  rw [h1, h2, addFaceCore_faces]
+  simp [nF]
+
+theorem rot_refl (a : List Nat) : Rot a a := Or.inl rfl
+
+/-- **`add_halfface([h0,h1,h2], false)`** for a closed triangle of live halfedges on three different
+    vertices, in a mesh of closed triangles with the edge cache: a live halfface comes back whose vertex cycle
+    is that of the three halfedges up to rotation; the old definitions are untouched -/
+theorem tetAddHalfface_spec {k : Kernel} (hi : GInv k) (hb : k.eBU = true) (hl : FaceLoops k) {h0 h1 h2 : Nat}
+    (ok0 : HeOk k h0) (ok1 : HeOk k h1) (ok2 : HeOk k h2) (hloop : Loop3 k [h0, h1, h2])
+    (hd : k.fromV h0 ≠ k.fromV h1 ∧ k.fromV h1 ≠ k.fromV h2 ∧ k.fromV h0 ≠ k.fromV h2) :
+    ∃ hf, (k.tetAddHalfface [h0, h1, h2] false).2 = some hf ∧ GInv (k.tetAddHalfface [h0, h1, h2] false).1 ∧
+      Ext k (k.tetAddHalfface [h0, h1, h2] false).1 ∧ (k.tetAddHalfface [h0, h1, h2] false).1.cDel = k.cDel ∧
+      FaceLoops (k.tetAddHalfface [h0, h1, h2] false).1 ∧ HfOk (k.tetAddHalfface [h0, h1, h2] false).1 hf ∧
+      Rot ((k.tetAddHalfface [h0, h1, h2] false).1.hfVerts hf) [k.fromV h0, k.fromV h1, k.fromV h2] := by
+  obtain ⟨l1, l2, l3⟩ := hloop
+  cases hfd : k.findHalffaceHes h0 h1 with
+  | some hf =>
+    have e : k.tetAddHalfface [h0, h1, h2] false = (k, some hf) := by unfold tetAddHalfface; simp only [hfd]
+    rw [e]
+    obtain ⟨s1, s2, s3, s4⟩ := OVM.Props.C10.findHalffaceHes_sound k hi.wf.cache hb h0 h1 hf ok0.1 hfd
+    have hfl : k.fDeleted (eOf hf) = false := by unfold liveF at s2; simp at s2; exact s2.2
+    refine ⟨hf, rfl, hi, Ext.refl k, rfl, hl, ⟨s1, hfl⟩, ?_⟩
+    have hL := loop3_hfHes hl s1
+    unfold hfVerts
+    generalize k.hfHes hf = ys at hL s3 s4
+    unfold Loop3 at hL
+    split at hL
+    · rename_i y0 y1 y2
+      obtain ⟨m1, m2, m3⟩ := hL
+      simp only [List.mem_cons, List.not_mem_nil, or_false] at s3 s4
+      simp only [List.map_cons, List.map_nil]
+      rcases s3 with rfl | rfl | rfl <;> rcases s4 with rfl | rfl | rfl
+      · exact absurd rfl hd.1
+      · -- h0 = y0, h1 = y1
+        left; rw [← m2, l2]
+      · -- h0 = y0, h1 = y2 : impossible
+        exfalso; apply hd.2.2; rw [← m3, l2]
+      · exfalso; apply hd.2.2; rw [← m1, l2]
+      · exact absurd rfl hd.1
+      · -- h0 = y1, h1 = y2
+        right; right; simp [List.rotateLeft]; rw [← m3, l2]
+      · -- h0 = y2, h1 = y0
+        right; left; simp [List.rotateLeft]; rw [← m1, l2]
+      · exfalso; apply hd.2.2; rw [← m2, l2]
+      · exact absurd rfl hd.1
+    · exact absurd hL id
+  | none =>
+    have e : k.tetAddHalfface [h0, h1, h2] false = (k.addFaceCore [h0, h1, h2], some (heOf k.nF 0)) := by
+      unfold tetAddHalfface; simp only [hfd]
+      unfold tetAddFace addFace addFaceAccepts
+      simp
+    rw [e]
+    have hh : ∀ h ∈ [h0, h1, h2], HeOk k h := by
+      intro h hm; simp only [List.mem_cons, List.not_mem_nil, or_false] at hm
+      rcases hm with rfl | rfl | rfl <;> assumption
+    have hg : GInv (k.addFaceCore [h0, h1, h2]) := by
+      have := ginv_addFace false hh hi
+      unfold addFace addFaceAccepts at this; simpa using this
+    have hx := ext_addFaceCore k [h0, h1, h2]
+    refine ⟨heOf k.nF 0, rfl, hg, hx, by simp, ?_, ⟨?_, ?_⟩, ?_⟩
+    · exact faceLoops_addFaceCore hi.wf.range hl (fun h hm => (hh h hm).1) ⟨l1, l2, l3⟩
+    · unfold nHF heOf nF; simp
+    · have h1' : eOf (heOf k.nF 0) = k.nF := by unfold eOf heOf; omega
+      rw [h1']; unfold fDeleted; rw [addFaceCore_fDel]
+      rw [List.getD_eq_getElem?_getD, List.getElem?_append_right (by rw [hi.wf.len.fDel]; exact Nat.le_refl _)]
+      simp [hi.wf.len.fDel]
+    · unfold hfVerts; rw [hfHes_new]
+      simp only [List.map_cons, List.map_nil, hx.fromV ok0.1, hx.fromV ok1.1, hx.fromV ok2.1]
+      exact rot_refl _
+
+/-! ### the invariant bundle of the construction theorems -/
+
+/-- K5's global invariant, vertex and edge caches enabled, every stored face a closed triangle -/
+structure BInv (k : Kernel) : Prop where
+  ginv : GInv k
+  vBU : k.vBU = true
+  eBU : k.eBU = true
+  loops : FaceLoops k
+
+theorem BInv.ext {k k' : Kernel} (h : BInv k) (e : Ext k k') (hg : GInv k') (hl : FaceLoops k') : BInv k' :=
+  ⟨hg, e.vBU.trans h.vBU, e.eBU.trans h.eBU, hl⟩
+
+theorem tetAddHalfedge_binv {k : Kernel} (h : BInv k) {a b : Nat} (ha : VOk k a) (hb : VOk k b) :
+    BInv (k.tetAddHalfedge a b).1 := by
+  obtain ⟨g, e, _, _, _, _⟩ := tetAddHalfedge_spec h.ginv h.vBU ha hb
+  refine h.ext e g ?_
+  intro f hf
+  rw [tetAddHalfedge_faces] at hf
+  exact e.faceLoops_old h.ginv.wf.range h.loops f hf
+
+/-- **`add_halfface(a, b, c, false)`** for three different live vertices: a live halfface with vertex cycle
+    `(a, b, c)` up to rotation -/
+theorem tetAddHalfface3_spec {k : Kernel} (h : BInv k) {a b c : Nat} (ha : VOk k a) (hb : VOk k b) (hc : VOk k c)
+    (hab : a ≠ b) (hbc : b ≠ c) (hac : a ≠ c) :
+    ∃ hf, (k.tetAddHalfface3 a b c false).2 = some hf ∧ BInv (k.tetAddHalfface3 a b c false).1 ∧
+      Ext k (k.tetAddHalfface3 a b c false).1 ∧ (k.tetAddHalfface3 a b c false).1.cDel = k.cDel ∧
+      HfOk (k.tetAddHalfface3 a b c false).1 hf ∧ Rot ((k.tetAddHalfface3 a b c false).1.hfVerts hf) [a, b, c] := by
+  simp only [tetAddHalfface3]
+  obtain ⟨g1, e1, c1, o1, f1, t1⟩ := tetAddHalfedge_spec h.ginv h.vBU ha hb
+  have b1 := tetAddHalfedge_binv h ha hb
+  generalize k.tetAddHalfedge a b = r0 at g1 e1 c1 o1 f1 t1 b1 ⊢
+  obtain ⟨g2, e2, c2, o2, f2, t2⟩ := tetAddHalfedge_spec b1.ginv b1.vBU (e1.vOk hb) (e1.vOk hc)
+  have b2 := tetAddHalfedge_binv b1 (e1.vOk hb) (e1.vOk hc)
+  generalize r0.1.tetAddHalfedge b c = r1 at g2 e2 c2 o2 f2 t2 b2 ⊢
+  have e12 := e1.trans e2
+  obtain ⟨g3, e3, c3, o3, f3, t3⟩ := tetAddHalfedge_spec b2.ginv b2.vBU (e12.vOk hc) (e12.vOk ha)
+  have b3 := tetAddHalfedge_binv b2 (e12.vOk hc) (e12.vOk ha)
+  generalize r1.1.tetAddHalfedge c a = r2 at g3 e3 c3 o3 f3 t3 b3 ⊢
+  have e23 := e2.trans e3
+  -- the three halfedges in the final state
+  have F0 : r2.1.fromV r0.2 = a := by rw [e23.fromV o1.1]; exact f1
+  have T0 : r2.1.toV r0.2 = b := by rw [e23.toV o1.1]; exact t1
+  have F1 : r2.1.fromV r1.2 = b := by rw [e3.fromV o2.1]; exact f2
+  have T1 : r2.1.toV r1.2 = c := by rw [e3.toV o2.1]; exact t2
+  obtain ⟨hf, p1, p2, p3, p4, p5, p6, p7⟩ := tetAddHalfface_spec (k := r2.1) b3.ginv b3.eBU b3.loops
+    (h0 := r0.2) (h1 := r1.2) (h2 := r2.2) (e23.heOk o1) (e3.heOk o2) o3
+    (by show _ ∧ _ ∧ _; rw [T0, F1, T1, f3, t3, F0]; exact ⟨rfl, rfl, rfl⟩)
+    (by rw [F0, F1, f3]; exact ⟨hab, hbc, hac⟩)
+  rw [F0, F1, f3] at p7
+  exact ⟨hf, p1, b3.ext p3 p2 p5, (e1.trans e23).trans p3, by rw [p4, c3, c2, c1], p6, p7⟩
 
 end Kernel
 end OVM
